@@ -321,8 +321,10 @@ OBJ_TYPES = ["file", "ipv4-addr", "network-traffic", "process", "x-custom", "dom
 PROPS = ["name", "value", "size", "pid", "dst_port", "src_port", "protocols", "is_hidden", "created", "extensions", "x_prop", "body_multipart",
          "command_line", "subject", "account_login", "mime_type"]
 KEYS = ["windows-pebinary-ext", "sections", "entropy", "a b", "it's", "x-y", "body", "n1", "back\\slash",
-        "größe", "ключ", "名前", "m²", "sınıf", "*", "0", "1x", "'tis", "'q'", "q'", "IN", "AND", "true", "START", "EXISTS", "NOT"]      # word characters outside ASCII, and steps that look like indices, must stay quoted
-STRS = ["foo", "foo.exe", "198.51.100.1", "it's", "back\\slash", "a%b_c", "^\\d+$", "", " ", "üñí", "\U0001f600", "tab\there", "-", "x' OR 'y", "1", "true"]
+        "größe", "ключ", "名前", "m²", "sınıf", "*", "0", "1x", "'tis", "'q'", "q'", "IN", "AND", "true", "START", "EXISTS", "NOT",
+        "backslash", "back\\\\slash"]      # word characters outside ASCII, and steps that look like indices, must stay quoted
+STRS = ["foo", "foo.exe", "198.51.100.1", "it's", "back\\slash", "a%b_c", "^\\d+$", "", " ", "üñí", "\U0001f600", "tab\there", "-", "x' OR 'y", "1", "true",
+        "2020-01-01T00:00:00Z"]      # (a string constant which reads as a timestamp is still a string constant)
 
 
 def gen_path(rng, simple=False):
